@@ -132,6 +132,16 @@ func init() {
 		},
 		"(*sync.Pool).Get": func(in *Interp, fr *frame, fn *ssa.Function, a []Value) Value {
 			p := a[0].(Ptr)
+			// single-threaded pool: the most recently Put object is handed out
+			// again (what a goroutine normally observes), so that a buffer which is
+			// still referenced after it was freed is seen being reused
+			if k, ok := concKey(p); ok {
+				if st := in.pools[k]; len(st) > 0 {
+					v := st[len(st)-1]
+					in.pools[k] = st[:len(st)-1]
+					return v
+				}
+			}
 			st := in.loadRaw(p).(Struct)
 			// last field is New func() any
 			if nf, ok := st[len(st)-1].(*Closure); ok && nf != nil {
@@ -139,7 +149,17 @@ func init() {
 			}
 			return Iface{}
 		},
-		"(*sync.Pool).Put": nop,
+		"(*sync.Pool).Put": func(in *Interp, fr *frame, fn *ssa.Function, a []Value) Value {
+			if k, ok := concKey(a[0].(Ptr)); ok {
+				if in.pools == nil {
+					in.pools = map[string][]Value{}
+				}
+				if ifc, isI := a[1].(Iface); isI && ifc.t != nil {
+					in.pools[k] = append(in.pools[k], a[1])
+				}
+			}
+			return nil
+		},
 		"(*sync.Cond).Wait": func(in *Interp, fr *frame, fn *ssa.Function, a []Value) Value {
 			unsupported("sync.Cond.Wait (concurrency is outside the model)")
 			return nil
